@@ -238,6 +238,9 @@ func timestampFromOOBData(oob []byte) (time.Time, uint32, error) {
 }
 
 func ReadTXTimestamp(conn *net.UDPConn) (time.Time, uint32, error) {
+	if verifLateTXTimestamp() {
+		return time.Time{}, 0, errTimestampNotFound
+	}
 	sconn, err := conn.SyscallConn()
 	if err != nil {
 		return time.Time{}, 0, err
